@@ -82,13 +82,24 @@ def d1_rounding(ctx):
     if not casts:
         raise AnchorMissing("_ind2save: no conversion to an integer sample type found (neither astype/np.int16 nor a store into an integer array)")
     for c, operand in casts:
-        v = expand_name(du, operand, c)
+        from sa.common import expand_deep
+        v = expand_deep(du, operand, c)
         bad = _has_unrounded_division(v)
         ctx.check(not bad, fi, c, f"{src(c)[:40]}...astype", "the volts/sample2volts quotient is rounded to nearest before the integer cast",
                   "a float quotient is cast to an integer type without rounding: astype truncates toward zero, so samples whose quotient "
                   "lands just below the integer come back 1 LSB low", key="cast")
         # divisor is the reader's conversion vector for this etype
-        divs = [b for b in find(v, ast.BinOp) if isinstance(b.op, ast.Div)]
+        in_index = set()
+        for sub_ in find(v, ast.Subscript):
+            if isinstance(sub_.value, ast.Attribute) and sub_.value.attr in ("c_", "r_", "s_"):
+                continue          # np.c_[a, b] concatenates VALUES
+            for n_ in ast.walk(sub_.slice):
+                in_index.add(id(n_))
+        for c2 in find(v, ast.Call):
+            if call_name(c2) in ("slice", "range", "int"):
+                for n_ in ast.walk(c2):
+                    in_index.add(id(n_))
+        divs = [b for b in find(v, ast.BinOp) if isinstance(b.op, ast.Div) and id(b) not in in_index]     # value divisions, not index arithmetic
 
         def _root(e):
             r = chain_root(e)[0]
